@@ -54,8 +54,18 @@ impl std::fmt::Display for AssetClass {
     }
 }
 
-#[derive(Serialize, Deserialize, Debug, Clone, PartialEq, Eq)]
+#[derive(Serialize, Deserialize, Debug, Clone)]
 pub struct CanonicalAssets(HashMap<AssetClass, i128>);
+
+// Equality is semantic: an entry with amount zero is the same as no entry, no matter
+// how the value was constructed.
+impl PartialEq for CanonicalAssets {
+    fn eq(&self, other: &Self) -> bool {
+        self.amounts_match(other) && other.amounts_match(self)
+    }
+}
+
+impl Eq for CanonicalAssets {}
 
 impl std::fmt::Display for CanonicalAssets {
     fn fmt(&self, f: &mut std::fmt::Formatter<'_>) -> std::fmt::Result {
@@ -144,6 +154,19 @@ impl CanonicalAssets {
 
     pub fn asset_amount(&self, asset: &AssetClass) -> Option<i128> {
         self.get(asset).cloned()
+    }
+
+    // every entry of self has the same amount in other (a missing entry counts as zero)
+    fn amounts_match(&self, other: &Self) -> bool {
+        for (class, amount) in self.iter() {
+            let other_amount = other.asset_amount(class).unwrap_or(0);
+
+            if *amount != other_amount {
+                return false;
+            }
+        }
+
+        true
     }
 
     pub fn contains_total(&self, other: &Self) -> bool {
